@@ -42,8 +42,8 @@ theorem spanLen_append (p : UInt8 → Bool) : ∀ (w r : Bytes), (∀ x ∈ w, p
 
 /-- `skipSpaces` over exactly the white space `w` -/
 theorem skipSpaces_eval {c : Cur} {w r : Bytes} (hrest : c.rest = w ++ r) (hw : AllSpace w) (hr : StartsNon isSpace r) :
-    ∃ c', skipSpaces c = .ok () c' ∧ c'.pos = c.pos + w.length ∧ c'.rest = r ∧ c.Reach c' := by
-  unfold skipSpaces
+    ∃ c', skipSpacesC c = .ok () c' ∧ c'.pos = c.pos + w.length ∧ c'.rest = r ∧ c.Reach c' := by
+  unfold skipSpacesC
   rw [hrest, spanLen_append isSpace w r hw hr]
   obtain ⟨c', h1, h2, h3, h4⟩ := advR_ok (k := w.length) (c := c) (by rw [hrest]; simp)
   refine ⟨c', h1, h2, ?_, h4⟩
@@ -51,8 +51,8 @@ theorem skipSpaces_eval {c : Cur} {w r : Bytes} (hrest : c.rest = w ++ r) (hw : 
 
 /-- `skipWhitespaceOutsideText` consumes white space that is followed by `<` -/
 theorem skipWs_eval_lt {c : Cur} {w r : Bytes} (hrest : c.rest = w ++ 0x3C :: r) (hw : AllSpace w) :
-    ∃ c', skipWhitespaceOutsideText c = .ok () c' ∧ c'.pos = c.pos + w.length ∧ c'.rest = 0x3C :: r ∧ c.Reach c' := by
-  unfold skipWhitespaceOutsideText
+    ∃ c', skipWhitespaceOutsideTextC c = .ok () c' ∧ c'.pos = c.pos + w.length ∧ c'.rest = 0x3C :: r ∧ c.Reach c' := by
+  unfold skipWhitespaceOutsideTextC
   have hsp : spanLen isSpace (w ++ 0x3C :: r) = w.length :=
     spanLen_append isSpace w _ hw (by intro x r' h; cases h; decide)
   simp only [hrest, hsp]
@@ -65,8 +65,8 @@ theorem skipWs_eval_lt {c : Cur} {w r : Bytes} (hrest : c.rest = w ++ 0x3C :: r)
 
 /-- `skipWhitespaceOutsideText` consumes white space that ends the input -/
 theorem skipWs_eval_eof {c : Cur} {w : Bytes} (hrest : c.rest = w) (hw : AllSpace w) :
-    ∃ c', skipWhitespaceOutsideText c = .ok () c' ∧ c'.rest = [] ∧ c.Reach c' := by
-  unfold skipWhitespaceOutsideText
+    ∃ c', skipWhitespaceOutsideTextC c = .ok () c' ∧ c'.rest = [] ∧ c.Reach c' := by
+  unfold skipWhitespaceOutsideTextC
   have hsp : spanLen isSpace w = w.length := by
     have := spanLen_append isSpace w [] hw (by intro x r' h; cases h)
     simpa using this
@@ -79,8 +79,8 @@ theorem skipWs_eval_eof {c : Cur} {w : Bytes} (hrest : c.rest = w) (hw : AllSpac
 
 /-- **F29 as repaired**: white space followed by text is not consumed -/
 theorem skipWs_eval_text {c : Cur} {w r : Bytes} {x : UInt8} (hrest : c.rest = w ++ x :: r) (hw : AllSpace w)
-    (hx : isSpace x = false) (hlt : x ≠ 0x3C) : skipWhitespaceOutsideText c = .ok () c := by
-  unfold skipWhitespaceOutsideText
+    (hx : isSpace x = false) (hlt : x ≠ 0x3C) : skipWhitespaceOutsideTextC c = .ok () c := by
+  unfold skipWhitespaceOutsideTextC
   have hsp : spanLen isSpace (w ++ x :: r) = w.length :=
     spanLen_append isSpace w _ hw (by intro y r' h; cases h; exact hx)
   simp only [hrest, hsp]
@@ -91,9 +91,9 @@ theorem skipWs_eval_text {c : Cur} {w r : Bytes} {x : UInt8} (hrest : c.rest = w
 /-- `readName` over exactly the name `n` -/
 theorem readName_eval {o : Options} {c : Cur} {n r : Bytes} (hrest : c.rest = n ++ r) (hn : ValidName n)
     (hr : StartsNon isNameChar r) (hlen : n.length ≤ o.maxName) :
-    ∃ c', readName o c = .ok (some ⟨c.pos, n.length⟩) c' ∧ c'.pos = c.pos + n.length ∧ c'.rest = r ∧ c.Reach c' := by
+    ∃ c', readNameC o c = .ok (some ⟨c.pos, n.length⟩) c' ∧ c'.pos = c.pos + n.length ∧ c'.rest = r ∧ c.Reach c' := by
   obtain ⟨h, t, rfl, hh, ht⟩ := hn
-  unfold readName
+  unfold readNameC
   simp only [hrest, List.cons_append]
   simp only [hh, Bool.not_true, Bool.false_eq_true, ↓reduceIte]
   have hsp : spanLen isNameChar (t ++ r) = t.length := spanLen_append isNameChar t r ht hr
@@ -112,9 +112,9 @@ theorem readName_eval {o : Options} {c : Cur} {n r : Bytes} (hrest : c.rest = n 
 /-- `readQuotedValue` over exactly `q value q` -/
 theorem readQuotedValue_eval {o : Options} {c : Cur} {q : UInt8} {v r : Bytes} (hrest : c.rest = q :: v ++ q :: r)
     (hq : q = 0x22 ∨ q = 0x27) (hv : q ∉ v) (hlen : v.length ≤ o.maxText) :
-    ∃ c', readQuotedValue o c = .ok ⟨c.pos + 1, v.length⟩ c' ∧ c'.pos = c.pos + v.length + 2 ∧ c'.rest = r ∧
+    ∃ c', readQuotedValueC o c = .ok ⟨c.pos + 1, v.length⟩ c' ∧ c'.pos = c.pos + v.length + 2 ∧ c'.rest = r ∧
       c.Reach c' := by
-  unfold readQuotedValue
+  unfold readQuotedValueC
   simp only [hrest, List.cons_append]
   have hq' : ¬ ((q ≠ 0x22 && q ≠ 0x27) = true) := by rcases hq with h | h <;> subst h <;> decide
   simp only [hq', ↓reduceIte]
@@ -207,7 +207,7 @@ theorem startsNon_space_or {w r : Bytes} {x : UInt8} (hw : AllSpace w) (hx : isN
 theorem readAttributes_eval (o : Options) (bs : Bytes) : ∀ (attrs : List FAttr) (fuel : Nat) (acc : List Attr) (c : Cur)
     (ws r : Bytes) (t : UInt8), c.At bs → (∀ a ∈ attrs, a.WF o) → AllSpace ws → (t = 0x2F ∨ t = 0x3E) →
     c.rest = renderAttrs attrs ++ (ws ++ t :: r) → attrs.length < fuel → acc.length + attrs.length ≤ o.maxAttrs →
-    ∃ as c', readAttributes o fuel acc c = .ok as c' ∧ c'.rest = t :: r ∧ c.Reach c' ∧
+    ∃ as c', readAttributesC o fuel acc c = .ok as c' ∧ c'.rest = t :: r ∧ c.Reach c' ∧
       as.map (Attr.view bs) = acc.map (Attr.view bs) ++ attrs.map (fun a => (a.name, a.value)) := by
   intro attrs
   induction attrs with
@@ -220,7 +220,7 @@ theorem readAttributes_eval (o : Options) (bs : Bytes) : ∀ (attrs : List FAttr
       have hns : StartsNon isSpace (t :: r) := by
         intro x r' h; cases h; rcases ht with h | h <;> subst h <;> decide
       obtain ⟨c1, h11, h12, h13, h14⟩ := skipSpaces_eval hrest hws hns
-      simp only [readAttributes, h11, Res.bind, h13]
+      simp only [readAttributesC, h11, Res.bind, h13]
       have : (t = 0x2F || t = 0x3E) = true := by rcases ht with h | h <;> subst h <;> decide
       simp only [this, ↓reduceIte]
       exact ⟨acc, c1, rfl, h13, h14, by simp⟩
@@ -236,7 +236,7 @@ theorem readAttributes_eval (o : Options) (bs : Bytes) : ∀ (attrs : List FAttr
       obtain ⟨c1, h11, h12, h13, h14⟩ := skipSpaces_eval hrest' hwa.pre (validName_head_not_space hwa.name _)
       obtain ⟨x, tl, hname, hx, htl⟩ := hwa.name
       have hx' := nameStart_not_special x hx
-      simp only [readAttributes, h11, Res.bind]
+      simp only [readAttributesC, h11, Res.bind]
       rw [h13, hname]
       simp only [List.cons_append]
       have : (x = 0x2F || x = 0x3E) = false := by simp [hx'.1, hx'.2.1]
@@ -376,10 +376,10 @@ theorem next_open (bs : Bytes) (o : Options) (s : St) (lead n ws rest : Bytes) (
     (has : ∀ a ∈ as, a.WF o) (hasl : as.length ≤ o.maxAttrs) (hws : AllSpace ws)
     (hrest : s.cur.rest = lead ++ (0x3C :: (n ++ (renderAttrs as ++ (ws ++ (if sc then 0x2F :: 0x3E :: rest else 0x3E :: rest))))))
     (hbud : o.maxTokens = 0 ∨ s.produced < o.maxTokens) (hdepth : s.stack.length + 1 ≤ o.maxDepth) :
-    ∃ t s', next o s = .tok t s' ∧ s'.cur.rest = rest ∧ SkInv bs o s' ∧ s'.produced = s.produced + 1 ∧
+    ∃ t s', nextC o s = .tok t s' ∧ s'.cur.rest = rest ∧ SkInv bs o s' ∧ s'.produced = s.produced + 1 ∧
       t.view bs = ⟨if sc then .emptyElement else .startElement, n, as.map (fun a => (a.name, a.value)), s.stack.length + 1⟩ ∧
       s'.stack = if sc then s.stack else n :: s.stack := by
-  unfold next
+  unfold nextC
   have hb : ¬ ((o.maxTokens ≠ 0 && decide (s.produced ≥ o.maxTokens)) = true) := by
     rcases hbud with h | h
     · simp [h]
@@ -398,8 +398,8 @@ theorem next_open (bs : Bytes) (o : Options) (s : St) (lead n ws rest : Bytes) (
   simp only [List.cons_append] at hc1'
   rw [hc1']
   simp only [hx'.2.2.1, hx'.2.2.2.1, hx'.1, ↓reduceIte]
-  -- readStartOrEmptyTag
-  unfold readStartOrEmptyTag
+  -- readStartOrEmptyTagC
+  unfold readStartOrEmptyTagC
   have hnc : StartsNon isNameChar (renderAttrs as ++ (ws ++ (if sc then 0x2F :: 0x3E :: rest else 0x3E :: rest))) := by
     cases as with
     | nil =>
@@ -467,9 +467,9 @@ theorem next_close (bs : Bytes) (o : Options) (s : St) (lead n ws rest : Bytes) 
     (hi : SkInv bs o s) (hlead : AllSpace lead) (hn : ValidName n) (hnl : n.length ≤ o.maxName) (hws : AllSpace ws)
     (hrest : s.cur.rest = lead ++ (0x3C :: 0x2F :: (n ++ (ws ++ 0x3E :: rest))))
     (hbud : o.maxTokens = 0 ∨ s.produced < o.maxTokens) (hstack : s.stack = n :: below) :
-    ∃ t s', next o s = .tok t s' ∧ s'.cur.rest = rest ∧ SkInv bs o s' ∧ s'.produced = s.produced + 1 ∧
+    ∃ t s', nextC o s = .tok t s' ∧ s'.cur.rest = rest ∧ SkInv bs o s' ∧ s'.produced = s.produced + 1 ∧
       t.view bs = ⟨.endElement, n, [], s.stack.length⟩ ∧ s'.stack = below := by
-  unfold next
+  unfold nextC
   have hb : ¬ ((o.maxTokens ≠ 0 && decide (s.produced ≥ o.maxTokens)) = true) := by
     rcases hbud with h | h
     · simp [h]
@@ -487,7 +487,7 @@ theorem next_close (bs : Bytes) (o : Options) (s : St) (lead n ws rest : Bytes) 
   obtain ⟨c2, h21, h22, h23, h24⟩ := advR_ok (k := 1) (c := c1) (by rw [hc1]; simp)
   simp only [h21]
   have hc2 : c2.rest = n ++ (ws ++ 0x3E :: rest) := by rw [h23, hc1]; simp
-  unfold readEndTag
+  unfold readEndTagC
   obtain ⟨c3, h31, h32, h33, h34⟩ := readName_eval (o := o) hc2 hn (startsNon_space_or hws (by decide)) hnl
   simp only [h31, Res.toStep]
   have hns : StartsNon isSpace (0x3E :: rest) := by intro y r' h; cases h; decide
@@ -513,8 +513,8 @@ theorem next_close (bs : Bytes) (o : Options) (s : St) (lead n ws rest : Bytes) 
 /-- the end of the document: trailing white space, then Eof with an empty stack -/
 theorem next_eof (o : Options) (s : St) (trail : Bytes) (htrail : AllSpace trail) (hrest : s.cur.rest = trail)
     (hbud : o.maxTokens = 0 ∨ s.produced < o.maxTokens) (hstack : s.stack = []) :
-    ∃ t s', next o s = .eof t s' := by
-  unfold next
+    ∃ t s', nextC o s = .eof t s' := by
+  unfold nextC
   have hb : ¬ ((o.maxTokens ≠ 0 && decide (s.produced ≥ o.maxTokens)) = true) := by
     rcases hbud with h | h
     · simp [h]
@@ -530,7 +530,7 @@ theorem run_pieces (bs : Bytes) (o : Options) : ∀ (ps : List Piece) (fuel : Na
     (vs : List View) (fin : List Bytes), SkInv bs o s → (∀ p ∈ ps, p.WF o) → AllSpace trail →
     s.cur.rest = renderPieces ps ++ trail → ps.length < fuel → (o.maxTokens = 0 ∨ s.produced + ps.length < o.maxTokens) →
     specRun o s.stack ps = some (vs, fin) →
-    (run o fuel s).1.map (Token.view bs) = vs ∧ (fin = [] → ∃ t s', (run o fuel s).2 = .accepted t s') := by
+    (runC o fuel s).1.map (Token.view bs) = vs ∧ (fin = [] → ∃ t s', (runC o fuel s).2 = .accepted t s') := by
   intro ps
   induction ps with
   | nil =>
@@ -542,8 +542,8 @@ theorem run_pieces (bs : Bytes) (o : Options) : ∀ (ps : List Piece) (fuel : Na
     | succ fuel =>
       simp only [renderPieces, List.nil_append] at hrest
       refine ⟨?_, ?_⟩
-      · simp only [run]
-        cases hn : next o s with
+      · simp only [runC]
+        cases hn : nextC o s with
         | tok t s' =>
           -- impossible: only white space is left
           exfalso
@@ -555,7 +555,7 @@ theorem run_pieces (bs : Bytes) (o : Options) : ∀ (ps : List Piece) (fuel : Na
           · obtain ⟨t', s'', he⟩ := next_eof o s trail htrail hrest (by rcases hbud with h | h; exact Or.inl h; exact Or.inr (by simpa using h)) hst
             rw [he] at hn; cases hn
           · -- with a non-empty stack `next` fails at Eof
-            unfold next at hn
+            unfold nextC at hn
             have hb : ¬ ((o.maxTokens ≠ 0 && decide (s.produced ≥ o.maxTokens)) = true) := by
               rcases hbud with h | h
               · simp [h]
@@ -574,7 +574,7 @@ theorem run_pieces (bs : Bytes) (o : Options) : ∀ (ps : List Piece) (fuel : Na
       · intro hfin
         obtain ⟨t, s', he⟩ := next_eof o s trail htrail hrest
           (by rcases hbud with h | h; exact Or.inl h; exact Or.inr (by simpa using h)) hfin
-        simp only [run, he]
+        simp only [runC, he]
         exact ⟨t, s', rfl⟩
   | cons p ps ih =>
     intro fuel s trail vs fin hi hwf htrail hrest hfuel hbud hspec
@@ -615,7 +615,7 @@ theorem run_pieces (bs : Bytes) (o : Options) : ∀ (ps : List Piece) (fuel : Na
             simp only [Bool.false_eq_true, ↓reduceIte] at hv hst
             have := ih fuel s' trail vs' fin' hi' (fun q hq => hwf q (by simp [hq])) htrail hr' (by simp at hfuel; omega)
               (hbud' s' hp') (by rw [hst]; exact hsp)
-            simp only [run, hnx]
+            simp only [runC, hnx]
             exact ⟨by simp [hv, this.1], this.2⟩
           · cases hspec
         · cases hspec
@@ -637,7 +637,7 @@ theorem run_pieces (bs : Bytes) (o : Options) : ∀ (ps : List Piece) (fuel : Na
             simp only [↓reduceIte] at hv hst
             have := ih fuel s' trail vs' fin' hi' (fun q hq => hwf q (by simp [hq])) htrail hr' (by simp at hfuel; omega)
               (hbud' s' hp') (by rw [hst]; exact hsp)
-            simp only [run, hnx]
+            simp only [runC, hnx]
             exact ⟨by simp [hv, this.1], this.2⟩
           · cases hspec
         · cases hspec
@@ -660,7 +660,7 @@ theorem run_pieces (bs : Bytes) (o : Options) : ∀ (ps : List Piece) (fuel : Na
                 hws hrest' hbud1 hstack
               have := ih fuel s' trail vs' fin' hi' (fun q hq => hwf q (by simp [hq])) htrail hr' (by simp at hfuel; omega)
                 (hbud' s' hp') (by rw [hst]; exact hsp)
-              simp only [run, hnx]
+              simp only [runC, hnx]
               exact ⟨by simp [hv, this.1, hstack], this.2⟩
             · cases hspec
           · cases hspec
@@ -678,8 +678,8 @@ theorem renderPieces_length : ∀ ps : List Piece, ps.length ≤ (renderPieces p
 theorem skeleton_faithful (o : Options) (ps : List Piece) (trail : Bytes) (vs : List View)
     (hwf : ∀ p ∈ ps, p.WF o) (htrail : AllSpace trail) (hbud : o.maxTokens = 0 ∨ ps.length < o.maxTokens)
     (hspec : specRun o [] ps = some (vs, [])) :
-    (tokens o (renderPieces ps ++ trail)).1.map (Token.view (renderPieces ps ++ trail)) = vs ∧
-    ∃ t s, (tokens o (renderPieces ps ++ trail)).2 = .accepted t s := by
+    (tokensC o (renderPieces ps ++ trail)).1.map (Token.view (renderPieces ps ++ trail)) = vs ∧
+    ∃ t s, (tokensC o (renderPieces ps ++ trail)).2 = .accepted t s := by
   have := run_pieces (renderPieces ps ++ trail) o ps ((renderPieces ps ++ trail).length + 2) (St.init _) trail vs []
     ⟨Cur.init_at _, rfl⟩ hwf htrail rfl (by have := renderPieces_length ps; simp; omega)
     (by simpa [St.init] using hbud) hspec
@@ -690,9 +690,9 @@ non-space byte other than `<`, the Text token starts at the white space and runs
 theorem next_text_keeps_leading_space (o : Options) (s : St) (w r : Bytes) (x : UInt8) (hw : AllSpace w)
     (hx : isSpace x = false) (hlt : x ≠ 0x3C) (hrest : s.cur.rest = w ++ x :: r)
     (hbud : o.maxTokens = 0 ∨ s.produced < o.maxTokens) (hlen : spanLen notLt (w ++ x :: r) ≤ o.maxText) :
-    ∃ t s', next o s = .tok t s' ∧ t.kind = .text ∧ t.text = ⟨s.cur.pos, spanLen notLt (w ++ x :: r)⟩ ∧
+    ∃ t s', nextC o s = .tok t s' ∧ t.kind = .text ∧ t.text = ⟨s.cur.pos, spanLen notLt (w ++ x :: r)⟩ ∧
       t.offset = s.cur.pos ∧ s'.cur.pos = s.cur.pos + spanLen notLt (w ++ x :: r) := by
-  unfold next
+  unfold nextC
   have hb : ¬ ((o.maxTokens ≠ 0 && decide (s.produced ≥ o.maxTokens)) = true) := by
     rcases hbud with h | h
     · simp [h]
@@ -710,7 +710,7 @@ theorem next_text_keeps_leading_space (o : Options) (s : St) (w r : Bytes) (x : 
       | nil => simp at hwr; rw [← hwr.1]; exact hlt
       | cons z w' => simp at hwr; rw [← hwr.1]; exact hsp z (hw z (by simp))
     simp only [hrest, hch, ↓reduceIte]
-    unfold readText
+    unfold readTextC
     have hk : spanLen notLt (ch :: r0) = 1 + spanLen notLt r0 := by
       simp only [spanLen]
       have : notLt ch = true := by simp [notLt, hch]
@@ -854,8 +854,8 @@ def renderForest (es : List FElem) (trail : Bytes) : Bytes := renderPieces (piec
 /-- faithfulness for element trees: the rendered forest is accepted and reported as its pre-order events -/
 theorem forest_faithful (o : Options) (es : List FElem) (trail : Bytes) (hwf : WFList o es) (htrail : AllSpace trail)
     (hh : heightList es ≤ o.maxDepth) (hbud : o.maxTokens = 0 ∨ (piecesList es).length < o.maxTokens) :
-    (tokens o (renderForest es trail)).1.map (Token.view (renderForest es trail)) = eventsList 1 es ∧
-    ∃ t s, (tokens o (renderForest es trail)).2 = .accepted t s := by
+    (tokensC o (renderForest es trail)).1.map (Token.view (renderForest es trail)) = eventsList 1 es ∧
+    ∃ t s, (tokensC o (renderForest es trail)).2 = .accepted t s := by
   have hspec : specRun o [] (piecesList es) = some (eventsList 1 es, []) := by
     have := spec_list o es [] [] (by simpa using hh)
     simpa [specRun, pre] using this
